@@ -12,6 +12,7 @@ structure StackSt where
   iterMoved : Option Iter := none
   iterTarget : Option Iter := none
   static_ : Option Static := none
+  src : Option Src := none
   /-- source description for `new` (from the header) -/
   subject : String := ""
 
@@ -86,6 +87,9 @@ def stackStep (st : StackSt) (op : List String) (env : List (Option Nat)) (obsSt
     | ["unwind", i, t, e] =>
       let (s', out, ev) := s.unwindEv cfg ⟨nat! i, nat! t, nat! e⟩
       ({ st with stack := some s' }, outStr out, upStr ev, s'.str)
+    | "bad_unwind" :: i :: t :: e :: _ =>
+      let (_, out, _) := s.unwindEv cfg ⟨nat! i, nat! t, nat! e⟩
+      (st, badClass out, "", s.str)
     | ["shrink"] =>
       let (s', ev) := s.shrinkToFit cfg
       ({ st with stack := some s' }, "done", upStr ev, s'.str)
@@ -156,6 +160,34 @@ def iterStep (st : StackSt) (op : List String) (env : List (Option Nat)) (obsSta
     | ["destroy"] =>
       let (_, ev) := it.destroy cfg
       ({ st with iter := none }, "done", upStr ev, "-")
+    | _ => (st, "bad-op", "", "-")
+
+/-- a block source driven directly (C16: LIFO-only sources) -/
+def srcStep (st : StackSt) (op : List String) (env : List (Option Nat)) : StackSt × String × String × String :=
+  let cfg := st.cfg
+  match op with
+  | ["new", d] =>
+    match srcOfStr d with
+    | some s => ({ st with src := some s }, "done", "", s.str)
+    | none => (st, "bad-src", "", "-")
+  | _ =>
+  match st.src with
+  | none => (st, "no-object", "", "-")
+  | some s =>
+    match op with
+    | ["alloc_block"] =>
+      match s.allocateBlock env with
+      | .envMissing => (st, "env-missing", "", s.str)
+      | .fail s' e ev _ => ({ st with src := some s' }, outStr (.throws e), upStr ev, s'.str)
+      | .ok s' b ev _ => ({ st with src := some s' }, s!"blk {b.base} {b.size}", upStr ev, s'.str)
+    | ["dealloc_block", b, sz] =>
+      let (s', ev, chk) := s.deallocateBlock cfg ⟨nat! b, nat! sz⟩
+      (match chk with
+       | some k => (st, outStr (.handler k), "", s.str)
+       | none => ({ st with src := some s' }, "done", upStr ev, s'.str))
+    | ["bad_dealloc_block", b, sz] =>
+      let (_, _, chk) := s.deallocateBlock cfg ⟨nat! b, nat! sz⟩
+      (st, (match chk with | some k => badClass (.handler k) | none => "missed"), "", s.str)
     | _ => (st, "bad-op", "", "-")
 
 def staticStep (st : StackSt) (op : List String) : StackSt × String × String × String :=
